@@ -3,13 +3,15 @@
    Model: Model.v / Turtle.v (the codecs of kolibrie/src/sparql_database.rs at commits 74abf0c, 5932e73, e7e251c, dbe5296);
    Spec: Spec.v (a dataset is the SET of its lexical quads; well-formedness = the property's quantifier).
 
-   Scope of the round-trip theorems: datasets whose terms are IRIs, blank nodes and literals (`wf_db`).
-   Quoted-triple terms are NOT covered by a theorem (they are modelled - ets_fuel / split_qt - and covered by the
-   correspondence check only); in that respect the theorems are partial with respect to the property text. *)
+   Scope of the round-trip theorems: (3)-(4b) datasets whose terms are IRIs, blank nodes and literals (`wf_db`);
+   (6) datasets whose subjects / objects may also be quoted triples of the safe class `qsafe` (`wf_tdb`): components are
+   IRIs without whitespace characters, blank nodes, nested safe quoted triples, or - as object - literals that are
+   single-spaced words free of whitespace characters, double quotes, angle brackets and backslashes.  Quoted triples
+   outside that class are the open finding C14-quoted-triple-bare-components ((7): refuted on the model). *)
 Require Import List NArith Bool.
 Import ListNotations.
 Require Import KV.Codec14.Model KV.Codec14.Turtle KV.Codec14.Spec.
-Require Import KV.Codec14.LitProofs KV.Codec14.TokProofs KV.Codec14.NqProofs KV.Codec14.NtProofs KV.Codec14.TtlProofs.
+Require Import KV.Codec14.LitProofs KV.Codec14.TokProofs KV.Codec14.NqProofs KV.Codec14.NtProofs KV.Codec14.QtProofs KV.Codec14.TtlProofs.
 Open Scope N_scope.
 
 (* (1) decoding an escaped literal gives back the value and the text after the closing quote, for EVERY list
@@ -83,6 +85,43 @@ Theorem C14_annotation_regression :
 Proof. exact annot_regression. Qed.
 Print Assumptions C14_annotation_regression.
 
+(* (6) quoted-triple terms of the safe class.  `tden db` is what decode_any shows of a database whose subjects and
+   objects are bare terms or quoted triples (rendered "<< s p o >>" with bare components). *)
+
+(* fuel adequacy: encode_term_star (then decode_any) on the rendering of a safe term gives the rendering back; the
+   recursion fuel `S (length term)` used by `ets` is always enough *)
+Theorem C14_ets_quoted : forall t : qterm, qsafe t = true -> ets (qrender t) = qrender t.
+Proof. exact ets_qt. Qed.
+Print Assumptions C14_ets_quoted.
+
+Theorem C14_nquads_quoted :
+  forall db : list tquad, wf_tdb db = true -> known_dd (tden db) = false ->
+    same_set (load_nq (gen_nq (tden db))) (tden db).
+Proof. exact nq_roundtrip_quoted. Qed.
+Print Assumptions C14_nquads_quoted.
+
+Theorem C14_ntriples_quoted :
+  forall db : list tquad, wf_tdb db = true -> known_dd (tden db) = false ->
+    same_set (load_nt (gen_nt (tden db))) (default_part (tden db)).
+Proof. exact nt_roundtrip_quoted. Qed.
+Print Assumptions C14_ntriples_quoted.
+
+(* Turtle: a statement with a quoted-triple subject or object is stored through encode_term_star (so the N-Quads
+   double-decoding class applies to that statement), and a quoted-triple OBJECT must not contain the annotation
+   marker "{|" (its components are written bare, outside any literal); both are part of `known_ttl_q` *)
+Theorem C14_turtle_quoted :
+  forall db : list tquad, wf_tdb db = true -> known_ttl_q db = false ->
+    exists l, load_ttl (gen_ttl (tden db)) = TOk l /\ same_set l (default_part (tden db)).
+Proof. exact ttl_roundtrip_quoted. Qed.
+Print Assumptions C14_turtle_quoted.
+
+(* (7) the open finding C14-quoted-triple-bare-components on the model: the quoted triple whose object literal is
+   `a  b` (two spaces) does not come back (it is read back with one space), N-Quads and N-Triples *)
+Theorem C14_quoted_bare_components_refuted :
+  exists db, ~ same_set (load_nq (gen_nq db)) db /\ ~ same_set (load_nt (gen_nt db)) (default_part db).
+Proof. exists qt_bad_db. exact qt_bad_refuted. Qed.
+Print Assumptions C14_quoted_bare_components_refuted.
+
 (* non-vacuity: a well-formed database outside the known classes with every kind of term and the characters the
    property names (quote, backslash, line break, non-BMP, empty string), and its round trips *)
 Definition ex_s : str := [104;116;116;112;58;47;47;97;47;115].            (* http://a/s *)
@@ -117,4 +156,16 @@ Example C14_example_ttl_text :
     [60;104;116;116;112;58;47;47;97;47;115;62;32;60;104;116;116;112;58;47;47;97;47;112;62;32;34;111;49;34;32;59;32;
      60;117;114;110;58;112;50;62;32;34;111;50;34;32;44;32;34;92;34;113;34;32;46;10] /\
   ttl_same (load_ttl (gen_ttl ex_ttl_db)) ex_ttl_db = true.
+Proof. repeat split; vm_compute; reflexivity. Qed.
+
+(* quoted triples: nested subject and object, blank node, plain multi-word and empty inner literals, named graph *)
+Definition ex_q1 : qterm := QQt (QBn [95;58;98]) (QIri ex_p) (QLit [[116;119;111]; [119;111;114;100;115]]).     (* << _:b p two words >> *)
+Definition ex_q2 : qterm := QQt ex_q1 (QIri ex_p) (QQt (QIri ex_s) (QIri ex_p) (QLit [])).                        (* nested, empty literal *)
+Definition ex_tdb : list tquad :=
+  [ (Quoted ex_q1, ex_p, Quoted ex_q2, None); (Bare ex_s, ex_p, Quoted ex_q1, Some [95;58;103]);
+    (Quoted ex_q2, ex_p, Bare [113;32;123;124], None) ;  (Bare ex_s, ex_p2, Quoted ex_q1, None) ].
+Example C14_example_quoted :
+  wf_tdb ex_tdb = true /\ known_dd (tden ex_tdb) = false /\ known_ttl_q ex_tdb = false /\
+  load_nq (gen_nq (tden ex_tdb)) = tden ex_tdb /\ load_nt (gen_nt (tden ex_tdb)) = default_part (tden ex_tdb) /\
+  ttl_same (load_ttl (gen_ttl (tden ex_tdb))) (default_part (tden ex_tdb)) = true.
 Proof. repeat split; vm_compute; reflexivity. Qed.
